@@ -139,6 +139,12 @@ def generate(ctx):
     for k in sc.KEYS + ["foo", ""]:
         for form in ("{b};{k}", "{b};{k}=", "{b};{k}=;lines=3", "{b};lines=3;{k}=", "{b};origin=x;{k}", "{b};{k};lines=3", "{b};{k}==", "{b};{k}=;{k}="):
             strings.append(form.format(b=base, k=k))
+    # a well-formed core SWHID of every type as visit and as anchor (only snp / dir, rev, rel, snp are allowed),
+    # and extended-only types
+    for t in ("cnt", "dir", "rev", "rel", "snp", "ori", "emd"):
+        for k in ("visit", "anchor"):
+            strings.append(f"{base};{k}=swh:1:{t}:" + "1" * 40)
+            strings.append(f"{base};origin=o;{k}=swh:1:{t}:" + "1" * 40 + ";lines=1")
     strings += ["", "swh", "swh:1:cnt:", "swh:2:cnt:" + "0" * 40, "SWH:1:cnt:" + "0" * 40, "swh:1:cnt:" + "0" * 40 + "\n", " swh:1:cnt:" + "0" * 40,
                 "swh:1:cnt:" + "0" * 40 + ";origin=a%20b", "swh:1:cnt:" + "0" * 40 + ";origin=a%E2%80%A8b", "swh:1:cnt:" + "0" * 40 + ";lines=+5",
                 "swh:1:cnt:" + "0" * 40 + ";lines=" + "1" * 4301, "swh:1:cnt:" + "0" * 40 + ";lines=" + "0" * 4301]
